@@ -19,7 +19,16 @@ type I2 interface {
 }
 type I3 interface{ M3() int }
 
+// I4 is "sealed": it has an unexported method, so its method count differs from
+// the number of exported methods of its implementors.
+type I4 interface {
+	M1() int
+	sealed()
+}
+
 func (s *S1) M1() int { return s.ID }
+func (s *S1) sealed() {}
+func (n N1) sealed()  {}
 func (s *S2) M1() int { return s.ID }
 func (s *S2) M2() int { return s.ID }
 func (s S3) M3() int  { return s.ID }
@@ -39,15 +48,16 @@ var (
 	tI1   = reflect.TypeOf((*I1)(nil)).Elem()
 	tI2   = reflect.TypeOf((*I2)(nil)).Elem()
 	tI3   = reflect.TypeOf((*I3)(nil)).Elem()
+	tI4   = reflect.TypeOf((*I4)(nil)).Elem()
 )
 
 // universe lists the types by the short names used in cases.
 var universe = map[string]reflect.Type{
 	"S1": tS1, "S2": tS2, "S3": tS3, "*S1": tPS1, "*S2": tPS2, "*S3": tPS3,
-	"N1": tN1, "N2": tN2, "chan": tChan, "<-chan": tRecv, "I1": tI1, "I2": tI2, "I3": tI3,
+	"N1": tN1, "N2": tN2, "chan": tChan, "<-chan": tRecv, "I1": tI1, "I2": tI2, "I3": tI3, "I4": tI4,
 }
 
-var typeNames = []string{"S1", "S2", "S3", "*S1", "*S2", "*S3", "N1", "N2", "chan", "<-chan", "I1", "I2", "I3"}
+var typeNames = []string{"S1", "S2", "S3", "*S1", "*S2", "*S3", "N1", "N2", "chan", "<-chan", "I1", "I2", "I3", "I4"}
 
 // concrete lists the types a value can be made of.
 var concreteNames = []string{"S1", "S2", "S3", "*S1", "*S2", "*S3", "N1", "N2", "chan"}
